@@ -226,6 +226,8 @@ package keeper
 //@ modifies world(ctx)
 //@ let oldid = kvget(old(aggregate(ctx)), erc20Key(erc20Addr))
 //@ let pold  = pbunmarshal_TokenPair(kvget(old(aggregate(ctx)), pairKey(oldid)))
+// the new contract does not already belong to another pair ("no contract belongs to two pairs")
+//@ ensures [new-contract-unused] result1 == nil && newERC20Addr != erc20Addr ==> !kvhas(old(aggregate(ctx)), erc20Key(newERC20Addr))
 //@ ensures [same-denoms]        result1 == nil ==> result.Denoms == pold.Denoms && result.GetERC20Contract() == newERC20Addr
 //@ ensures [pair-stored]        result1 == nil ==> kvget(aggregate(ctx), pairKey(result.GetID())) == pbmarshal_TokenPair(result)
 //@ ensures [new-address-indexed] result1 == nil ==> kvget(aggregate(ctx), erc20Key(newERC20Addr)) == result.GetID()
